@@ -201,11 +201,15 @@ structure Conn where
   auth : Option AuthState              -- `AuthState`
   sub : Option (String × String)       -- `client.Channel`
   closed : Bool                        -- IOLoop has exited
+  rd : Nat                             -- generation of `client.Reader`: 0 = the bufio reader over the raw
+                                       -- (plaintext) socket created at connect; a completed `UpgradeTLS`
+                                       -- replaces it by a fresh reader over the `tls.Conn` (generation + 1),
+                                       -- and whatever the old reader still had buffered is gone with it
   deriving Repr
 
 def Conn.fresh (id : Nat) : Conn :=
   { id := id, tls := false, cn := "", state := .init, hbOff := false, secret := "",
-    auth := none, sub := none, closed := false }
+    auth := none, sub := none, closed := false, rd := 0 }
 
 /-- `clientV2.HasAuthorizations`. -/
 def hasAuthorizations (c : Conn) : Bool :=
@@ -429,7 +433,8 @@ def execIdentify (cfg : Config) (c : Conn) (b : Broker) (d : IdentifyData) : Res
       replies := [.identify true cfg.authEnabled, .err "E_IDENTIFY_FAILED" true],
       close := true, query := none }
   | some cn =>
-    okRes { c with hbOff := c.hbOff || d.hbOff, tls := true, cn := cn } b [.identify true cfg.authEnabled, .ok]
+    okRes { c with hbOff := c.hbOff || d.hbOff, tls := true, cn := cn, rd := c.rd + 1 } b
+      [.identify true cfg.authEnabled, .ok]
 
 /-- `protocolV2.AUTH`. -/
 def execAuth (cfg : Config) (M : Matcher) (ans : Request → Option Resp) (now : Int)
@@ -630,11 +635,18 @@ def disconnect (c : Conn) (b : Broker) : Conn × Broker :=
 
 /-! ## histories -/
 
-/-- An event on the timeline of one connection: a command (with the clock reading and the auth
-server's behaviour at that instant), or anything else happening to the broker meanwhile (other
-connections, the HTTP API, the queue scan …): the environment may replace it arbitrarily. -/
+/-- An event on the timeline of one connection: a command line (with the clock reading and the
+auth server's behaviour at that instant), or anything else happening to the broker meanwhile (other
+connections, the HTTP API, the queue scan …): the environment may replace it arbitrarily.
+
+Byte provenance: `rd` is the generation of the `Reader` into whose buffer the bytes of this command
+line were received — 0: they crossed the wire in the clear, before any handshake (a client may
+well send them in the same segment as its `IDENTIFY`, so that they already sit in the plaintext
+reader's buffer when the handshake starts); k > 0: they arrived inside the TLS stream set up by
+the k-th completed handshake. `IOLoop` only ever reads from the *current* reader: a line buffered
+in a reader that has been replaced since is never seen (`stepEv` drops it). -/
 inductive Ev where
-  | cmd (now : Int) (ans : Request → Option Resp) (c : Cmd)
+  | cmd (rd : Nat) (now : Int) (ans : Request → Option Resp) (c : Cmd)
   | env (b : Broker)
 
 /-- One recorded step of a history: the state before, the event, the command's own result and
@@ -647,7 +659,9 @@ structure Rec where
 
 def stepEv (E : Ext) (cfg : Config) (M : Matcher) (s : St) (e : Ev) : Res :=
   match e with
-  | .cmd now ans c => step E cfg M ans now s.conn s.broker c
+  | .cmd rd now ans c =>
+    if rd = s.conn.rd then step E cfg M ans now s.conn s.broker c
+    else { conn := s.conn, broker := s.broker, replies := [], close := false, query := none }
   | .env b' => { conn := s.conn, broker := b', replies := [], close := false, query := none }
 
 def trace (E : Ext) (cfg : Config) (M : Matcher) (s : St) : List Ev → List Rec
